@@ -172,8 +172,15 @@ def evaluate(case: Dict[str, Any]) -> Dict[str, Any]:
     # the baseline: run A recorded and replayed through the model
     kwA, desc, p = build(case)
     A = Run(kwA).execute()
-    if A.nonfinite() or A.exc is not None:
+    if A.nonfinite() or (A.exc is not None and case.get("features", {}).get("update") not in ("indef",)):
         return {"corr": None, "skipped": None, "tags": ["nonfinite-or-failing-baseline"], "prop": []}
+    if A.exc is not None:
+        # an indefinite redefinition may make the kernels fail: then the repeat must fail the same way
+        kw2, _, _ = build(case, iprint=r.choice(IPRINTS), logger=quiet_logger(str(case["seed"])))
+        A2 = Run(kw2).execute()
+        if A2.exc is None or type(A2.exc) is not type(A.exc):
+            out["prop"].append({"what": "a call that fails without a logger behaves differently with one (or conversely)", "key": ""})
+        return out
     corr, skipped = shell.replay(A)
     out["skipped"] = skipped
     if corr is not None:
@@ -353,6 +360,11 @@ def features(r, kind):
         f["ftarget"] = "none"
     if kind in ("threads", "nested"):
         f["update"] = "none"
+    if kind == "repeat" and r.random() < 0.4:
+        # the objective is redefined on the fly (consistently): the history filter has something to drop,
+        # and whether it does must not depend on the logging configuration
+        f.update({"update": r.choice(["reweight", "indef", "indef", "rescale"]), "consistent": True, "switch_at": r.randint(1, 5),
+                  "jac": "callable", "scaler": "none", "ftarget": "none", "callback": r.choice(["none", "false"])})
     return f
 
 
